@@ -75,7 +75,7 @@ def build(p: dict[str, Any]) -> dict[str, Any]:
     run = dict(start=start, stop=stop, dt=dt, reversed=rev, reference=p.get("reference"), advection="EF", release=rel,
                state=dict(instance_variables=st_i, particle_variables=st_p, default_values=defaults),
                ibm=dict(module=C.REC_IBM, kill_time=kills, deactivate_time=deact, age=True, log=False),
-               output=dict(period=p["period"] * dt, numrec=p.get("numrec", 0), layout=p.get("layout", "sparse"), instance=out_i, particle=out_p))
+               output=dict(period=(f"PT{p['period'] * dt // 3600}H" if (p.get("period_iso") and (p["period"] * dt) % 3600 == 0) else p["period"] * dt), numrec=p.get("numrec", 0), layout=p.get("layout", "sparse"), instance=out_i, particle=out_p))
     if p.get("scalar"):
         run["extra_forcing"] = ["temp"]
     if p.get("filename"):
